@@ -1394,6 +1394,8 @@ class Path:
             return self.ev(f.node.body, fr)
         if isinstance(f, SObj):
             return self.call_method(f, '__call__', args, kwargs)
+        if isinstance(f, Opaque) and f.tag.endswith('.getrandbits') and self.ex.draw_fn is not None:
+            return self.ex.draw_fn(args[0])
         raise Unsupported(f'call of {f!r}')
 
     def call_method(self, obj: SObj, name: str, args, kwargs):
